@@ -267,8 +267,8 @@ Definition esort (ob : list (var * bool)) (l : list mu) : list mu :=
 Definition eagg_value (k : aggk) (x : var) (ms : list mu) : option term :=
   let vals := flat_map (fun m => match lookup m x with Some t => opt_list (parse_int t) | None => [] end) ms in
   match k with
-  | ASum => (* `values.iter().filter_map(parse f64).sum::<f64>().to_string()`: Rust's empty f64 sum is -0.0, printed "-0" *)
-            match vals with [] => Some "-0"%string | _ => Some (show_int (zsum vals)) end
+  | ASum => (* fold from 0.0 since 15674d8 (before: `sum::<f64>()`, whose empty value -0.0 printed "-0") *)
+            Some (show_int (zsum vals))
   | AMin => option_map show_int (zmin vals)
   | AMax => option_map show_int (zmax vals)
   | AAvg => match vals with [] => None | _ => Some (show_avg (zsum vals) (Z.of_nat (List.length vals))) end
